@@ -83,6 +83,10 @@ func (g *gx) canon() string {
 
 // tokens renders the tree; full=true parenthesises every operator application, otherwise only
 // where the precedence table and left associativity require it.
+// parenAtoms: the fully parenthesised rendering also wraps literals, variables and member names that are
+// operands (redundant parentheses are transparent around any term).
+var parenAtoms bool
+
 func (g *gx) tokens(full bool, ctx int) []string {
 	var out []string
 	wrap := func(inner []string, need bool) []string {
@@ -93,6 +97,10 @@ func (g *gx) tokens(full bool, ctx int) []string {
 	}
 	switch g.kind {
 	case "atom":
+		// third rendering: redundant parentheses around the atoms too (not in invocation position)
+		if full && parenAtoms && ctx > 0 && ctx != precAtom {
+			return wrap(append(out, g.toks...), true)
+		}
 		return append(out, g.toks...)
 	case "call":
 		out = append(out, g.text, "(")
@@ -199,6 +207,10 @@ func (tg *treeGen) atom() *gx {
 	lit := func(txt string) *gx { return &gx{kind: "atom", text: "(lit " + hx(txt) + ")", toks: []string{txt}} }
 	switch r.Intn(12) {
 	case 0, 1:
+		if r.Intn(8) == 0 {
+			// the boundaries of the Integer range (the literal carries no sign: -2147483648 is polarity applied to 2147483648)
+			return lit(Pick(r, []string{"2147483647", "2147483648", "2147483649", "4294967296", "99999999999"}))
+		}
 		return lit(fmt.Sprint(r.Intn(20)))
 	case 2:
 		return lit(Pick(r, []string{"'a'", "'b c'", "''", "'x\\'y'", "'/* no */'", "'// no'"}))
@@ -457,6 +469,14 @@ func runC11(c *Ctx) {
 		c.Observe("operator "+w.src, true)
 		c.Law(got == w.want, "C11/operator-meaning", "every operator token is compiled to its own operation (and polarity binds tighter than the binary operators)", w.src, got+" want "+w.want)
 	}
+	// a tree whose one rendering compiles also compiles in the other: the Integer boundary under polarity
+	for _, pair := range [][2]string{{"-2147483648", "-(2147483648)"}, {"-2147483648", "(-(2147483648))"}, {"- 2147483648", "-(2147483648)"}, {"-2147483648 + 1", "-(2147483648) + 1"}, {"-2147483647", "-(2147483647)"},
+		{"+2147483648", "+(2147483648)"}, {"-2147483648.0", "-(2147483648.0)"}, {"1 - 2147483648", "1 - (2147483648)"}, {"-2147483648 'mg'", "-(2147483648 'mg')"}, {"(-2147483648).abs()", "(-(2147483648)).abs()"}} {
+		a, _ := evalSrc(pair[0])
+		b, _ := evalSrc(pair[1])
+		c.Observe("integer boundary "+pair[0], true)
+		c.Law(a == b, "C11/same-outcome", "all renderings of a tree compile alike and evaluate identically", fmt.Sprintf("%q vs %q", pair[0], pair[1]), a+" vs "+b)
+	}
 	// whitespace, newlines and comments before the first and after the last token change nothing, and
 	// String() returns the source as it was given
 	for _, body := range []string{"1 + 2", "Patient.name.given", "true and false", "'a' & 'b'"} {
@@ -493,9 +513,12 @@ func runC11(c *Ctx) {
 			c.Count("tree:evaluating")
 		}
 		minT, fullT := t.tokens(false, 0), t.tokens(true, 0)
+		parenAtoms = true
+		fullA := t.tokens(true, 0)
+		parenAtoms = false
 		plain := func() string { return "" }
 		deco := func() string { return Pick(c.rng, gapDecor) }
-		srcs := []struct{ name, s string }{{"min", join(minT, plain)}, {"full", join(fullT, plain)}, {"min+gaps", join(minT, deco)}, {"full+gaps", join(fullT, deco)}}
+		srcs := []struct{ name, s string }{{"min", join(minT, plain)}, {"full", join(fullT, plain)}, {"min+gaps", join(minT, deco)}, {"full+gaps", join(fullT, deco)}, {"full+atoms", join(fullA, plain)}}
 		want := "ok " + t.canon()
 		nontrivial := t.kind != "atom"
 		var evals []string
